@@ -323,7 +323,13 @@ class Code:
         jnp = self.jnp
         if kind == "rhf":
             return {"mo_coeff": jnp.array(np.asarray(Cs[0], dtype=float))}
-        return {"mo_coeff": [jnp.array(np.asarray(Cs[0], dtype=float)), jnp.array(np.asarray(Cs[1], dtype=float))]}
+        wd = {"mo_coeff": [jnp.array(np.asarray(Cs[0], dtype=float)), jnp.array(np.asarray(Cs[1], dtype=float))]}
+        if getattr(self, "aux_rdm1", None) == "spin-averaged":
+            # wave_data may carry an "rdm1" of its own (it feeds the mean-field shift): here the spin-averaged density,
+            # which is NOT the density of the orbitals; the solution handed to optimize is still mo_coeff
+            D = [np.asarray(c, dtype=float) @ np.asarray(c, dtype=float).T for c in Cs[:2]]
+            wd["rdm1"] = jnp.array([(D[0] + D[1]) / 2.0] * 2)
+        return wd
 
     def optimize(self, kind, norb, nelec, h1, L, Cs):
         """-> [C_up, C_dn] as numpy arrays (rhf: the same array twice)"""
